@@ -75,6 +75,14 @@ func (c *Ctx) Thorough() bool { return c.Tier == "thorough" }
 // Mine says whether work item i belongs to this shard.
 func (c *Ctx) Mine(i int) bool { return i%c.NShards == c.Shard }
 
+// MineMixed is Mine over a fixed bijective scrambling of the index: for enumerations whose cost depends on the low digits of the index
+// in a base that shares a factor with the number of shards (strings over a 32-symbol alphabet on 16 shards: the first symbol alone
+// would decide the shard, and the shard of "(" would get all the expensive inputs). Still a partition: every index has exactly one owner.
+func (c *Ctx) MineMixed(i int) bool {
+	h := uint32(i) * 2654435761
+	return int(h>>16)%c.NShards == c.Shard
+}
+
 // Want implements the replay filter: in replay mode only the case whose
 // coordinates equal the recorded ones is executed.
 func (c *Ctx) Want(name string, idx int) bool {
